@@ -387,6 +387,51 @@ func vRunC15(c *vCase) {
 		c.Cov("roundtrips", 1)
 		c.Distinct("payload", fmt.Sprintf("%T/%d", p.Data, len(p.shape.Sizes)))
 	}
+	// (3) a stream of packets each padded to a stride, as the shared-memory ring delivers them: the stride-aware reader returns
+	// every packet, in order, and consumes exactly one padded slot per packet (also when a packet fills its slot exactly)
+	for i := 0; i < 4; i++ {
+		var pk []*Packet
+		var enc [][]byte
+		for len(pk) < 2+r.Intn(3) {
+			if p := vBuildPacket(r); p != nil && len(p.Bytes()) <= 8192 {
+				pk = append(pk, p)
+				enc = append(enc, p.Bytes())
+			}
+		}
+		stride := vPick(r, 8192, 8192, len(enc[0]), len(enc[len(enc)-1]), 64, 4096)
+		var stream []byte
+		for _, b := range enc {
+			stream = append(stream, b...)
+			if over := len(b) % stride; over > 0 {
+				stream = append(stream, make([]byte, stride-over)...)
+			}
+		}
+		save(stream)
+		cr := &vCountingReader{r: bytes.NewReader(stream)}
+		consumed := 0
+		for k, p := range pk {
+			q, err := ReadPacketPlusPad(cr, stride)
+			slot := (len(enc[k]) + stride - 1) / stride * stride
+			if err != nil || q == nil {
+				c.Violate("c15:stride-stream", "packet %d of %d (lengths %v, stride %d) could not be read from the padded stream: %v", k+1, len(pk), vLens(enc), stride, err)
+				return
+			}
+			if q.sequenceNumber != p.sequenceNumber || q.Length() != len(enc[k]) || !reflect.DeepEqual(vDataOrNil(p.Data), vDataOrNil(q.Data)) {
+				c.Violate("c15:stride-stream", "packet %d of %d (lengths %v, stride %d): read back sequence number %d length %d, sent %d length %d (or the payload differs)", k+1, len(pk), vLens(enc), stride,
+					q.sequenceNumber, q.Length(), p.sequenceNumber, len(enc[k]))
+				return
+			}
+			consumed += slot
+			if cr.n != consumed {
+				c.Violate("c15:stride-stream", "after packet %d of %d (lengths %v, stride %d) the reader has consumed %d bytes, the packets' slots end at %d", k+1, len(pk), vLens(enc), stride, cr.n, consumed)
+				return
+			}
+			if len(enc[k])%stride == 0 {
+				c.Cov("stride_streams_with_a_packet_filling_its_slot", 1)
+			}
+		}
+		c.Cov("stride_streams", 1)
+	}
 	c.Describe("C15 idx-derived: %d hostile inputs + round trips (rng %d)", kinds, r.Int63())
 	c.Nontrivial()
 }
@@ -595,4 +640,20 @@ func vFuzzReplay(c *vCase, path string) {
 	}
 	c.Describe("fuzz input %x", b)
 	vDecodeOne(c, b)
+}
+
+func vLens(bs [][]byte) []int {
+	out := make([]int, len(bs))
+	for i, b := range bs {
+		out[i] = len(b)
+	}
+	return out
+}
+
+// vDataOrNil maps empty payloads of any type to nil (an empty payload decodes as no payload).
+func vDataOrNil(d any) any {
+	if vLen(d) == 0 {
+		return nil
+	}
+	return d
 }
